@@ -235,9 +235,9 @@ def run(C, R):
                             R.ok('C11.R4', '%s|delivery|%s' % (m['path'], path_cond(E, path)))
                         elif ff == 1:
                             # closed result: an availability test must have come first
-                            idx_flag = next(i for i, e in enumerate(path.events)
-                                            if e['k'] == 'assume' and e['expr'][0] == 'init'
-                                            and loc_endswith(e['expr'][1], flag))
+                            idx_flag = next((i for i, e in enumerate(path.events)
+                                             if e['k'] == 'assume' and e['expr'][0] == 'init'
+                                             and loc_endswith(e['expr'][1], flag)), len(path.events))
                             avail = [i for i, e in enumerate(path.events) if i < idx_flag and (
                                 (e['k'] == 'call' and e['name'] in ('is_empty', 'len') and 'RingBuf' in e['callee'])
                                 or (e['k'] == 'take' and loc_endswith(e['loc'], 'value'))
@@ -375,16 +375,21 @@ def run(C, R):
                                '%s:%s' % (fn['file'], fn['line']))
                 # constructor initialises the counter to 1
                 inits = 0
+                seen_init = 0
                 for fn, s, cl2 in scan_aggregates(F, shared):
                     rv = s['rv']
                     if side in rv['fields']:
                         ps = E.run(fn['path'])
                         for path in ps:
                             for e in path.events:
-                                if e['k'] == 'call' and e['name'] == 'new' and 'atomic' in e['callee'] \
-                                        and e['args'] and e['args'][0] == ('const', 1):
-                                    inits += 1
+                                if e['k'] == 'call' and e['name'] == 'new' and 'atomic' in e['callee'] and e['args']:
+                                    seen_init += 1
+                                    if e['args'][0] == ('const', 1):
+                                        inits += 1
                         break
+                if seen_init == 0:
+                    raise CheckerError('cannot judge: the initial value of the `%s` counter of %s is not visible as an '
+                                       'AtomicUsize::new(<constant>) call at its construction site' % (side, hname))
                 if inits >= 1:
                     R.ok('C11.R5', '%s|constructor sets %s = 1' % (hname, side))
                 else:
